@@ -103,6 +103,15 @@ def stepWith (which : Which) (d : DSt) (fields : List String) (impl : String) : 
   | "setinbound" :: [n] =>
     -- the harness sets Session.SMState.Inbound directly (stanzas received meanwhile); no session, no effect
     ((if d.sess.present then { d with sess := { d.sess with inbound := n.toNat?.getD 0 } } else d), .det "ok" impl true true)
+  | ["wsconn"] =>
+    -- Client.connect over a plain ws:// transport, the server answering every step: the gate decides
+    let ws := Model.C04.wsWrites d.cfg.insecure false
+    let est := (Model.C04.wsGate d.cfg.insecure false).isSome
+    let ms := "out=" ++ (if est then "established" else "failed:true") ++ " w=" ++ String.intercalate "," (ws.map showWrite)
+    let okI := match parseImpl impl with
+      | some o => !o.crashed && gateOk d.cfg o.writes && (o.established == est)
+      | none => false
+    (d, ⟨ms, ms == impl, gateOk d.cfg ws, okI, "-"⟩)
   | "conn" :: rest =>
     let m := kv rest
     let tcfg : Model.C04.TlsCfg := ⟨getB m "skip", getB m "roots", getS m "sn", getS m "dom"⟩
